@@ -199,9 +199,39 @@ def real_run_predicates(ctx):
             if abs(chk["logged"] - chk["fresh"]) > tol:
                 ctx.finding("search-log-not-faithful", f"{g}: the search logged excess {chk['logged']:.6f} for field {chk['idx']} ({chk['nbh']} boreholes) at H={chk['h']}, a fresh evaluation of that field at that height gives {chk['fresh']:.6f}",
                             {**rep, "evaluation": chk})
-        if r["outcome"] != "design" or designlib.is_escape(r):
+        # a second project on the same manager: its height must be a root for ITS configuration
+        sec = r.get("second")
+        if sec and sec.get("outcome") == "design" and "oracle_a" in sec:
+            cb = next((c for c in cfgs if c["id"] == sec["id"]), None)
+            rb = next((x for x in recs if x["id"] == sec["id"]), None)
+            if cb is not None and rb is not None:
+                ea2 = designlib.excess_of(cb, *sec["oracle_a"])
+                same = rb["outcome"] == "design" and rb["nbh"] == sec["nbh"] and abs(rb["H"] - sec["H"]) <= 1e-6 * max(1.0, abs(rb["H"]))
+                escape_possible = designlib.is_escape(sec) if sec.get("evals") else (bool(cb.get("cont")) and not (same and not designlib.is_escape(rb)))
+                ctx.case(("second-design", r["id"], sec["id"]), True)
+                if not escape_possible and sec["H"] > cb["min_h"] + 1e-6 and ea2 < -1e-2:
+                    ctx.finding("height-not-a-root-on-reused-manager", f"{cb['geom'][0]}: the second project on a re-used manager returned {sec['nbh']} x {sec['H']:.3f} m, above the minimum height, "
+                                f"with an excess of {ea2:.4g} K for its own configuration (fresh manager: {rb.get('nbh')} x {rb.get('H')})",
+                                {"first_project": r["cfg"], "second_project": rb["cfg"], "mode": sec.get("mode"), "reused": {k: sec.get(k) for k in ("nbh", "H", "oracle_a")}})
+        if r["outcome"] != "design":
+            continue
+        # total drilling never exceeds count x max height of a candidate the search evaluated and found feasible
+        if g != "ROWWISE":
+            feas = [e for e in r.get("evals", []) if e["h"] == cfg["max_h"] and e["excess"] < 0 and e.get("nbh")]
+            if feas:
+                best = min(feas, key=lambda e: e["nbh"])
+                ctx.count("real:drilling-bound-checked")
+                if r["nbh"] * r["H"] > best["nbh"] * cfg["max_h"] * (1 + 1e-9):
+                    ctx.finding("drilling-exceeds-evaluated-feasible-candidate", f"{g}: returned {r['nbh']} x {r['H']:.3f} m = {r['nbh'] * r['H']:.1f} m of drilling although the search evaluated a {best['nbh']}-borehole field "
+                                f"that meets the limits at max height (excess {best['excess']:.4g} K): bound {best['nbh'] * cfg['max_h']:.1f} m", {**rep, "feasible_evaluation": best})
+        if designlib.is_escape(r):
             continue
         ctx.case(("real-design", r["id"], r["loads_sha"]), True)
+        # the returned height is a root of the excess (or the clamp at the minimum height)
+        live = designlib.excess_of(cfg, r["live_max"], r["live_min"])
+        if r["H"] > cfg["min_h"] + 1e-6 and live < -1e-2:
+            ctx.finding("returned-height-not-sized", f"{g}: returned {r['nbh']} x {r['H']:.3f} m, above the minimum height {cfg['min_h']}, where the excess is {live:.4g} K: the height was not brought to the root",
+                        {**rep, "live_max": r["live_max"], "live_min": r["live_min"]})
         root = r["roots"][-1] if r.get("roots") else None
         if root and root["f_lower"] * root["f_upper"] < 0:
             ea = designlib.excess_of(cfg, *r["oracle_a"])
